@@ -168,7 +168,7 @@ def build_event(e):
     raise ValueError(ctor)
 
 
-def build_sim(scn, model=None, outdir=None, events_mode="add"):
+def build_sim(scn, model=None, outdir=None, events_mode="add", events=None):
     s = scn.get("sim", {})
     if model is None:
         model = build_model(scn)
@@ -179,7 +179,8 @@ def build_sim(scn, model=None, outdir=None, events_mode="add"):
         kw["boario_output_dir"] = outdir
     if s.get("results_dir_name"):
         kw["results_dir_name"] = s["results_dir_name"]
-    events = [build_event(e) for e in scn.get("events", [])]
+    if events is None:
+        events = [build_event(e) for e in scn.get("events", [])]
     if events_mode == "ctor":
         sim = Simulation(model, events_list=events, **kw)
     else:
